@@ -227,10 +227,25 @@ def _classify(v):
 
 
 def _evaluate(m, fn, unit, t):
+    """fn(T) asked in the given unit: Tk=t or Tc=t"""
     try:
         f = getattr(m, fn)
         v = f(Tk=t) if unit == "K" else f(Tc=t)
     except Exception as ex:  # noqa: BLE001  whatever the correlation raises is the observation
+        return "exception:" + type(ex).__name__, 0
+    return _classify(v)
+
+
+def _other(unit, t):
+    """the same temperature through the other entry point"""
+    return ("C", t - C_TO_K) if unit == "K" else ("K", t + C_TO_K)
+
+
+def _derived(m, fn, t0c, tc):
+    """the functions that only take Celsius: dL/L factor and density reduction between the low end of the range and tc"""
+    try:
+        v = m.linearExpansionFactor(Tc=tc, T0=t0c) if fn == "linearExpansionFactor" else m.getThermalExpansionDensityReduction(t0c, tc)
+    except Exception as ex:  # noqa: BLE001
         return "exception:" + type(ex).__name__, 0
     return _classify(v)
 
@@ -253,40 +268,91 @@ def temperatures(lo, hi, nt):
     return [lo] + [lo + (hi - lo) * k / (nt - 1) for k in range(1, nt - 1)] + [hi]
 
 
+DERIVED = ("linearExpansionFactor", "getThermalExpansionDensityReduction")
+N_INSTANCES = 3
+
+
+def _composition(m):
+    out, total = [], 0
+    for nuc, frac in m.massFrac.items():
+        q = q_unit(frac)
+        if total + abs(q) > CLAMP:  # keep TLC's 32-bit sum from overflowing; still far from normalised
+            q = 0 if total >= CLAMP else CLAMP - total
+        total += abs(q)
+        out.append({"nuc": str(nuc), "ppb": q, "x": repr(float(frac))})
+    return out
+
+
 def export_materials(nt=25):
+    """Every class is instantiated N_INSTANCES times, round robin over the classes (instance k of every class is created
+    before instance k+1 of any class).  The first instance is evaluated over the ranges; afterwards every instance is
+    probed at one temperature: a material must not depend on how many of its kind (or of another kind) exist already."""
     armi_ready()
-    mats = []
-    for cls in material_classes():
+    classes = material_classes()
+    recs, insts = {}, {}
+    for cls in classes:
         name = cls.__name__
-        kind, why = NON_LIBRARY.get(name, ("library", ""))
-        rec = {"name": name, "module": cls.__module__.rsplit(".", 1)[-1], "kind": kind, "inst": "ok", "entries": [], "ranges": []}
-        try:
-            m = cls()
-        except Exception as ex:  # noqa: BLE001
-            rec["inst"] = "exception:%s" % type(ex).__name__
-            mats.append(rec)
-            continue
-        total = 0
-        for nuc, frac in m.massFrac.items():
-            q = q_unit(frac)
-            if total + abs(q) > CLAMP:  # keep TLC's 32-bit sum from overflowing; still far from normalised
-                q = 0 if total >= CLAMP else CLAMP - total
-            total += abs(q)
-            rec["entries"].append({"nuc": str(nuc), "ppb": q})
+        kind, _why = NON_LIBRARY.get(name, ("library", ""))
+        recs[name] = {"name": name, "module": cls.__module__.rsplit(".", 1)[-1], "kind": kind, "inst": "ok", "entries": [], "ranges": [],
+                      "instances": []}
+        insts[name] = []
+    for k in range(N_INSTANCES):
+        for cls in classes:
+            name = cls.__name__
+            try:
+                m = cls()
+                insts[name].append(m)
+                recs[name]["instances"].append({"inst": "ok", "entries": _composition(m), "probes": []})
+            except Exception as ex:  # noqa: BLE001
+                insts[name].append(None)
+                recs[name]["instances"].append({"inst": "exception:%s" % type(ex).__name__, "entries": [], "probes": []})
+    probes = {}
+    for cls in classes:
+        name = cls.__name__
+        rec = recs[name]
+        rec["inst"] = rec["instances"][0]["inst"]
+        m = insts[name][0]
         ranges = stated_ranges(cls)
         if not ranges:
             ranges = [("nominal", "C", NOMINAL_RANGE_C[0], NOMINAL_RANGE_C[1])]
+        probes[name] = (ranges[0][1], 0.5 * (ranges[0][2] + ranges[0][3]))
+        if m is None:
+            continue
+        rec["entries"] = [{"nuc": e["nuc"], "ppb": e["ppb"]} for e in rec["instances"][0]["entries"]]
         for label, unit, lo, hi in ranges:
             temps = temperatures(lo, hi, nt)
+            base = {"label": label, "stated": label != "nominal", "unit": unit, "lo": int(round(lo * 1000)), "hi": int(round(hi * 1000))}
             for fn in FUNCS + (("volumetricExpansion",) if "volumetric" in label.lower() else ()):
                 samples = []
                 for t in temps:
                     st, q = _evaluate(m, fn, unit, t)
-                    samples.append([int(round(t * 1000)), st, q])
-                rec["ranges"].append({"label": label, "stated": label != "nominal", "unit": unit, "fn": fn,
-                                      "lo": int(round(lo * 1000)), "hi": int(round(hi * 1000)), "samples": samples})
-        mats.append(rec)
-    return mats
+                    st2, q2 = _evaluate(m, fn, *_other(unit, t))
+                    samples.append([int(round(t * 1000)), st, q, st2, q2])
+                rec["ranges"].append(dict(base, fn=fn, both=True, samples=samples))
+            loc = lo if unit == "C" else lo - C_TO_K
+            for fn in DERIVED:
+                samples = []
+                for t in temps:
+                    st, q = _derived(m, fn, loc, t if unit == "C" else t - C_TO_K)
+                    samples.append([int(round(t * 1000)), st, q, st, q])
+                rec["ranges"].append(dict(base, fn=fn, both=False, samples=samples))
+    for k in range(N_INSTANCES):
+        for cls in classes:
+            name = cls.__name__
+            m = insts[name][k]
+            if m is None:
+                continue
+            unit, t = probes[name]
+            for fn in FUNCS:
+                st, q = _evaluate(m, fn, unit, t)
+                x = ""
+                if st == "ok":
+                    try:
+                        x = repr(float(getattr(m, fn)(Tk=t) if unit == "K" else getattr(m, fn)(Tc=t)))
+                    except Exception:  # noqa: BLE001
+                        x = "?"
+                recs[name]["instances"][k]["probes"].append([fn, st, q, x])
+    return [recs[c.__name__] for c in classes]
 
 
 def export_all(nt=25, chain_path=None):
